@@ -247,6 +247,24 @@ func c19(x *mon.Ctx) {
 	mkNet("root-crl-down", w, func(u string) bool { return strings.HasSuffix(u, ".der") })
 	mkNet("tcbinfo-down", w, func(u string) bool { return strings.Contains(u, "/tcb?") })
 	mkNet("qeidentity-down", w, func(u string) bool { return strings.Contains(u, "/qe/identity") })
+	// collateral past its validity at the real date (the tool judges everything at the time of the run)
+	{
+		past, pastNext := time.Date(2020, 1, 1, 0, 0, 0, 0, time.UTC), time.Date(2021, 1, 1, 0, 0, 0, 0, time.UTC)
+		st := w.Clone()
+		st.RootCRL = world.MkCRL(st.PKI.Root, past, pastNext, nil)
+		mkNet("root-crl-stale", st, nil)
+		st = w.Clone()
+		st.PckCRL = world.MkCRL(st.PKI.Inter, past, pastNext, nil)
+		mkNet("pck-crl-stale", st, nil)
+		st = w.Clone()
+		st.Tcb.IssueDate, st.Tcb.NextUpdate = past, pastNext
+		st.Resign()
+		mkNet("tcbinfo-stale", st, nil)
+		st = w.Clone()
+		st.Qe.IssueDate, st.Qe.NextUpdate = past, pastNext
+		st.Resign()
+		mkNet("qeidentity-stale", st, nil)
+	}
 	for name, v := range map[string]struct {
 		match  func(u string) bool
 		length string
@@ -291,8 +309,8 @@ func c19(x *mon.Ctx) {
 			n.stop()
 		}
 	}()
-	if len(nets) != 14 {
-		x.Broken(fmt.Sprintf("only %d of the 14 in-process PCS variants started", len(nets)))
+	if len(nets) != 18 {
+		x.Broken(fmt.Sprintf("only %d of the 18 in-process PCS variants started", len(nets)))
 		return
 	}
 	// a proxy address nobody listens on
@@ -764,6 +782,13 @@ func c19(x *mon.Ctx) {
 	add("network", "collateral+crl/pck-crl-endpoint-down", "pck-crl-down", 3, -1, false, netArgs("-get_collateral=true", "-check_crl=true")...)
 	add("network", "collateral+crl/root-crl-endpoint-down", "root-crl-down", 3, -1, false, netArgs("-get_collateral=true", "-check_crl=true")...)
 	add("network", "collateral/crl-endpoints-down-but-unused", "crl-down", 0, -1, true, netArgs("-get_collateral=true")...)
+	for _, stale := range []string{"root-crl-stale", "pck-crl-stale", "tcbinfo-stale", "qeidentity-stale"} {
+		add("network", "collateral+crl/"+stale, stale, 2, -1, false, netArgs("-get_collateral=true", "-check_crl=true")...)
+	}
+	add("network", "collateral/root-crl-stale-but-unused", "root-crl-stale", 0, -1, true, netArgs("-get_collateral=true")...)
+	add("network", "collateral/pck-crl-stale-but-unused", "pck-crl-stale", 0, -1, true, netArgs("-get_collateral=true")...)
+	add("network", "collateral/tcbinfo-stale", "tcbinfo-stale", 2, -1, false, netArgs("-get_collateral=true")...)
+	add("network", "collateral/qeidentity-stale", "qeidentity-stale", 2, -1, false, netArgs("-get_collateral=true")...)
 	add("network", "collateral/tcbinfo-endpoint-down", "tcbinfo-down", 3, -1, false, netArgs("-get_collateral=true")...)
 	add("network", "collateral/qeidentity-endpoint-down", "qeidentity-down", 3, -1, false, netArgs("-get_collateral=true")...)
 	add("network", "collateral+crl/pck-crl-endpoint-slow-then-fails", "pck-crl-slow", 3, -1, false, netArgs("-get_collateral=true", "-check_crl=true")...)
